@@ -256,7 +256,10 @@ let strategies (c : cfg) : strat list =
   let all = List.rev !l in
   (* big cases: every third strategy (list operations of the extracted model are linear) *)
   let total = List.length c.out1 + List.length c.out2 in
-  if total > 30000
+  if total > 200000
+  then List.map (fun s -> { s with rd_max = 8192; wr_max = 1 lsl 30 })
+         (List.filteri (fun i _ -> i mod 12 = 0 || i >= List.length all - 2) all)
+  else if total > 30000
   then List.map (fun s -> { s with rd_max = max s.rd_max 4000 })
          (List.filteri (fun i _ -> i mod 5 = 0 || i >= List.length all - 2) all)
   else if total > 4000
@@ -281,7 +284,7 @@ let capture_mode inp outp =
              let c = { pol1 = policy_of p1; pol2 = policy_of p2; cap = z_of_int (i cap);
                        timeout = z_of_int (i tmo); poll = z_of_int (i poll); pcap = z_of_int 65536;
                        out1 = pattern 1 (i n1) k1.[0]; out2 = pattern 2 (i n2) k2.[0];
-                       ecode = z_of_int (i code) } in
+                       ecode = (if code = "null" then None else Some (z_of_int (i code))) } in
              let fam = Hashtbl.create 8 in
              List.iter (fun s ->
                match run_strategy c s with
